@@ -161,3 +161,9 @@ theorem safe_sliceFrom {β} {b : Bytes} {i : Nat} {f : Bytes → Out β} (h : i 
 theorem safe_pure {α} (a : α) : (pure a : Out α).Safe := safe_ok a
 
 end Rtcp
+
+namespace Rtcp
+theorem Status.toOut_eq_ok {α} {s : Status} {a v : α} (h : s.toOut a = .ok v) : s = .ok ∧ a = v := by
+  cases s <;> simp [Status.toOut] at h
+  exact ⟨rfl, h⟩
+end Rtcp
